@@ -29,7 +29,8 @@
   answer is modelled (empty OUT queue => `Err.timeout`).
 
   Every Rust operation that can panic is an explicit `.panic` branch:
-    P1  `assert_ne!(headers.coe_header.service, CoeService::Emergency)`            (mailbox_write_read)
+    (P1 `assert_ne!(headers.coe_header.service, CoeService::Emergency)` was removed by fix-c16-emergency: the service is
+        now looked at on the 8-byte mailbox + CoE header before the SDO header is decoded)
     P2  `headers.header.length - 3` on u16                                          (sdo_read, segmented; checked builds)
     P3  `headers.mailbox.length as usize - COE_HEADER_AND_LIST_TYPE_SIZE`           (send_sdo_info_service; checked builds)
     P4  `response[..length]`                                                        (send_sdo_info_service; all builds)
@@ -182,6 +183,13 @@ def unpackService (b : List Nat) : Res Nat :=
 def unpackCommand (b : List Nat) : Res Nat :=
   let c := bitsOf (b.getD 8 0) 5 3
   if validDisc coeCommand c then .ok c else .err .wireInvalid
+
+/-- The function-local `CoeHeadersRaw` of mailbox_write_read (8 bytes): mailbox header and the CoE service. -/
+def unpackCoeHeaders (b : List Nat) : Res (MbxHeader × Nat) :=
+  if b.length < LEN_CoeHeadersRaw then .err .wireShort
+  else
+    (unpackMailboxHeader (b.take LEN_MailboxHeader)).bind fun h =>
+    (unpackService b).bind fun svc => .ok (h, svc)
 
 /-- The function-local `HeadersRaw` of mailbox_write_read (12 bytes). -/
 structure HeadersRaw where
@@ -343,15 +351,13 @@ structure Cfg where
   /-- `config.mailbox.write.len` (SubDevice IN) -/
   wmbx : Nat
   hasMailbox : Bool
-  /-- P1 is compiled in (`Gen.Coe.hasEmergencyAssert` for the real tree). -/
-  assertEmergency : Bool
   /-- What lies before / after the mailbox data in the frame buffer the `ReceivedPdu` points into. -/
   pre : List Nat
   post : List Nat
 
 /-- The real tree's configuration for a mailbox of the given sizes. -/
 def Cfg.real (mode : Mode) (rmbx wmbx : Nat) : Cfg :=
-  { mode := mode, rmbx := rmbx, wmbx := wmbx, hasMailbox := true, assertEmergency := hasEmergencyAssert, pre := [], post := [] }
+  { mode := mode, rmbx := rmbx, wmbx := wmbx, hasMailbox := true, pre := [], post := [] }
 
 /-- MainDevice-side counter + device + queue of messages for the OUT mailbox (head = in the mailbox now). -/
 structure St (σ : Type) where
@@ -396,21 +402,22 @@ def readMailbox {σ : Type} (cfg : Cfg) (s : St σ) : Option Pdu × St σ :=
 /-! ### mailbox_write_read -/
 
 /-- The triage of a response in `mailbox_write_read` (everything after `wait_for_mailbox_response`). -/
-def triage {ρ : Type} (cfg : Cfg) (unpackR : List Nat → Res ρ) (validate : Nat → Nat → Bool) (p : Pdu) :
+def triage {ρ : Type} (_cfg : Cfg) (unpackR : List Nat → Res ρ) (validate : Nat → Nat → Bool) (p : Pdu) :
     Res (ρ × List Nat) :=
-  (unpackHeadersRaw p.bytes).bind fun h =>
-    if cfg.assertEmergency && h.service == svcEmergency then
-      .panic "assertion `left != right` failed: Emergency"
-    else if h.service == svcEmergency then
-      let p := p.trimFront LEN_HeadersRaw
+  (unpackCoeHeaders p.bytes).bind fun ch =>
+    if ch.2 == svcEmergency then
+      -- the emergency data follows the CoE header directly
+      let p := p.trimFront LEN_CoeHeadersRaw
       (unpackEmergency p.bytes).bind fun d => .err (.emergency d.1 d.2)
-    else if h.command == cmdAbort then
-      let p := p.trimFront LEN_HeadersRaw
-      (unpackU32 p.bytes).bind fun code => .err (.aborted code h.address h.subIndex)
-    else if h.header.mailboxType != mbxCoe || !validate h.address h.subIndex then
-      .err (.responseInvalid h.address h.subIndex)
     else
-      (unpackR p.bytes).bind fun r => .ok (r, (p.trimFront LEN_HeadersRaw).bytes)
+      (unpackHeadersRaw p.bytes).bind fun h =>
+        if h.command == cmdAbort then
+          let p := p.trimFront LEN_HeadersRaw
+          (unpackU32 p.bytes).bind fun code => .err (.aborted code h.address h.subIndex)
+        else if h.header.mailboxType != mbxCoe || !validate h.address h.subIndex then
+          .err (.responseInvalid h.address h.subIndex)
+        else
+          (unpackR p.bytes).bind fun r => .ok (r, (p.trimFront LEN_HeadersRaw).bytes)
 
 /-- `mailbox_write_read`. The returned byte list is `&response` after the trim (the callers only deref it). -/
 def mailboxWriteRead {σ ρ : Type} (w : World σ) (cfg : Cfg) (req : List Nat) (unpackR : List Nat → Res ρ)
